@@ -26,7 +26,7 @@ RULE = ("history mode: random histories of 15-45 steps (all change kinds, nested
         "objectdb mode: distinct = set of scope keys saved. serializer mode: distinct = structural type "
         "skeleton of the value (depth <= 3)")
 ASSUMPTIONS = ["files have one consistent newline convention", "no external edits while the project is closed"]
-BUDGET = {"quick": (12000, 60), "thorough": (600000, 480)}
+BUDGET = {"quick": (12000, 240), "thorough": (295000, 900)}
 EXHAUSTIVE = {}
 REQUIRE = {"reopens": 200, "effective_after_reopen": 100, "serializer_values": 1000, "objectdb_scopes_compared": 20,
            "folder_moves_reloaded": 5}
